@@ -42,6 +42,18 @@ def shared_bases():
     return [r for r, _ in c01.space_g("quick")]
 
 
+def prefix_recipes(base: dict):
+    """Every prefix of the component sequence (description, inputs..., outputs..., rule blocks...) of a base engine:
+    the engine with only a name, name + description, + the first i inputs, + the first o outputs, + the first b blocks.
+    Rule blocks need all the variables, so they are only kept once every variable is present."""
+    ni, no, nb = len(base["inputs"]), len(base["outputs"]), len(base["blocks"])
+    seq = [(0, 0, 0)] + [(i, 0, 0) for i in range(1, ni + 1)] + [(ni, o, 0) for o in range(1, no + 1)] + [(ni, no, b) for b in range(1, nb)]
+    for desc in ("", "a prefix engine"):
+        for i, o, b in seq:
+            yield f"prefix:{i}in,{o}out,{b}blocks,description={bool(desc)}", {
+                **base, "name": base["name"] + "-prefix", "description": desc, "inputs": base["inputs"][:i], "outputs": base["outputs"][:o], "blocks": base["blocks"][:b]}
+
+
 def decimals_for(tier: str):
     return [3, 9, 1] if tier == "quick" else list(range(1, 10))
 
@@ -338,6 +350,11 @@ def run_shard(tier: str, seed: int, shard: int):
         if shard == bi:
             for d in (3, 9):
                 acc.guard({"label": "variants", "group": "variant", "decimals": d, "recipe": base}, run_variants, acc, base, d)
+        if shard == bi + len(bs):
+            for label, recipe in prefix_recipes(base):
+                acc.states += 1
+                acc.cls("group_prefix")
+                acc.guard({"label": label, "group": "prefix", "decimals": 3, "recipe": recipe}, run_recipe, acc, "prefix", f"{base['name']}:{label}", recipe, 3)
     for k, recipe in enumerate(shared_bases()):
         if k % N_SHARDS == shard:
             acc.states += 1
@@ -354,14 +371,14 @@ def run_shard(tier: str, seed: int, shard: int):
 def summarize(tier: str, seed: int, merged: dict) -> dict:
     c = merged["classes"]
     need = ["representable", "not_representable", "variant_accepted", "group_term", "group_norm", "group_defuzzifier",
-            "group_activation", "group_flag", "group_weight", "group_description"]
+            "group_activation", "group_flag", "group_weight", "group_description", "group_prefix"]
     vac = [f"outcome class {k} is empty" for k in need if not c.get(k)]
     n_single = sum(len(D.singles(b)) + 1 for b in bases())
     return {
         "rule": (
             f"5 base engines + every single-field deviation ({n_single} engines"
             + (", plus every pair of deviations from different groups on the Mamdani and Takagi-Sugeno bases" if tier == "thorough" else "")
-            + f") x decimals {decimals_for(tier)} (the base engines also through exporter / importer pairs with the statement separators {SEPARATORS[1:]}; at decimals 3 and 9 also built from numpy.float32 arguments); text variants (comments, blank lines, key order, omitted keys, int-looking and "
+            + f") x decimals {decimals_for(tier)} (the base engines also through exporter / importer pairs with the statement separators {SEPARATORS[1:]}; at decimals 3 and 9 also built from numpy.float32 arguments); every prefix of each base engine's component sequence (name only, + description, + inputs, + outputs, + blocks); text variants (comments, blank lines, key order, omitted keys, int-looking and "
             f"over-precise numbers, an extra variable / term named each of {ODD_NAMES}) of the 5 base documents at decimals 3 and 9. states = engines, transitions = exports/imports/"
             "process calls, traces = structural comparisons; every case is non-trivial"
         ),
